@@ -60,7 +60,9 @@ impl Actor for ProbeActor {
         match message {
             ToGossipManager::Subscribe(topic, _nodes, reply) => {
                 let (to_gossip_tx, to_gossip_rx) = mpsc::channel(TO_GOSSIP_CAPACITY);
-                let (from_gossip_tx, _rx) = broadcast::channel(BROADCAST_CAPACITY);
+                // (`_`: the initial receiver is dropped right here, so the subscription under test is the
+                // only receiver of this channel.)
+                let (from_gossip_tx, _) = broadcast::channel(BROADCAST_CAPACITY);
                 {
                     let mut s = state.lock().unwrap();
                     s.subscribes += 1;
